@@ -825,15 +825,18 @@ func simC03Laws(c *Ctx) {
 		observe(c, v, "C03:population")
 		pop = append(pop, mixed{d, v})
 	}
+	var forced [][2]int // pairs that are judged whatever the draws say: the members of one family of twins
 	if c.G(3) == 0 {
 		// weakened twins: a wholly unknown value of a member's type, and a known value of the same shape in which one
 		// part is still of unknown type (it holds cty.DynamicVal there) - whatever Equals says of such a pair, it says
 		// the same in both directions
 		for k := 0; k < 3; k++ {
-			m := pop[c.G(len(pop))]
+			mi := c.G(len(pop))
+			m := pop[mi]
 			if m.d.T.HasDynamic() || m.d.T.HasCapsule() {
 				continue
 			}
+			fam := []int{mi, len(pop)}
 			u := &VDesc{T: m.d.T, St: StUnknown}
 			if c.G(2) == 0 {
 				u.Ref = genRef(c, m.d.T)
@@ -851,7 +854,13 @@ func simC03Laws(c *Ctx) {
 					if pan := catch(func() { pop = append(pop, mixed{d, d.Build()}) }); pan != nil {
 						break // (typed members next to placeholder members that the constructors refuse)
 					}
+					fam = append(fam, len(pop)-1)
 					c.Probe("c03.weakened-twin")
+				}
+			}
+			for x := 0; x < len(fam); x++ {
+				for y := x + 1; y < len(fam); y++ {
+					forced = append(forced, [2]int{fam[x], fam[y]})
 				}
 			}
 		}
@@ -884,8 +893,14 @@ func simC03Laws(c *Ctx) {
 			c.Fail("C03", "rawequals-irreflexive", "rawequals-irreflexive:mixed", "%s is not RawEquals to itself", pop[i].d)
 		}
 	}
-	for k := 0; k < 24; k++ {
+	for k := 0; k < 24+len(forced); k++ {
 		a, b := pop[c.G(n)], pop[c.G(n)]
+		if k >= 24 {
+			a, b = pop[forced[k-24][0]], pop[forced[k-24][1]]
+			if c.G(2) == 0 {
+				a, b = b, a
+			}
+		}
 		c.Event("pair %s | %s", a.d, b.d)
 		eq, eq2 := a.v.Equals(b.v), b.v.Equals(a.v)
 		c.API("Value.Equals")
